@@ -102,8 +102,8 @@ GLOBAL_BENIGN = [
 ]
 
 
-# properties whose rules are confirmed independent of the names of local variables (the others are being converted)
-RENAME_ROBUST = {"C01", "C02", "C03", "C04", "C05", "C06", "C07", "C13", "C14", "C16", "C17", "C19", "C20"}
+# properties whose rules are confirmed independent of the names of local variables (all of them)
+RENAME_ROBUST = {"C%02d" % i for i in range(1, 21)}
 
 
 def _one(args):
